@@ -109,6 +109,16 @@ def work(item):
     clock.reset_calls()
     res = Result()
     states, transitions, sv = e1.module_states(name, tier)
+    # valid neighbours with a repaired check character (E2): same-class substitutions that stay valid reach branches
+    # the single edits of the examples cannot (other months, centuries, number types)
+    from .. import e2
+    try:
+        vals, st = e2.valid_set(name, m, tier, nseeds=4 if tier != 'thorough' else 16, cap=150 if tier != 'thorough' else 2000)
+        transitions += st['tried']
+        for v_ in vals:
+            states.setdefault(v_, (1, 'e2', ''))
+    except Exception:
+        pass
     res['transitions'] = transitions
     counts = collections.Counter()
     optsets, unknown = option_sets(name, m.validate)
